@@ -23,7 +23,54 @@ from pvc import run as R            # noqa: E402
 from pvc.contract import REGISTRY   # noqa: E402
 
 
+def do_replay(path):
+    """check.py --replay <replay file>: show the recorded failure, re-run its counterexample on the real code if it has
+    one, and decide again on the current tree whether the obligation still fails (exit 1) or is discharged (exit 0)"""
+    import contextlib, io, subprocess
+    full = next((c for c in (path, os.path.join(OUT, path), os.path.join(HERE, path)) if os.path.exists(c)), None)
+    if full is None:
+        print("CHECKER-ERROR replay file not found: %s" % path)
+        return 3
+    r = json.load(open(full))
+    pid, name = r["property"], r["obligation"]
+    print("REPLAY property=%s obligation=%s" % (pid, name))
+    for d in (r.get("solver_output") or [])[:3]:
+        print("  recorded verifier output: %s" % d)
+    cex = r.get("counterexample")
+    if cex and cex.get("rerun"):
+        print("  counterexample (%s); re-running on the real code: %s" % (cex.get("kind", ""), cex["rerun"]))
+        pr = subprocess.run(cex["rerun"], shell=True, capture_output=True, text=True, timeout=1800)
+        for l in (pr.stdout + pr.stderr).strip().splitlines()[-12:]:
+            print("    | " + l[:300])
+    else:
+        print("  no failing input was found for this obligation (no-failing-input-found)")
+    buf = io.StringIO()
+    sys.argv = [sys.argv[0], pid]
+    with contextlib.redirect_stdout(buf):
+        rc = main()
+    lines = buf.getvalue().splitlines()
+    base = os.path.basename(full)
+    again = [l for l in lines if l.startswith("VIOLATION") and base in l]
+    if again:
+        print("  the obligation still fails on the current tree:")
+        for l in again:
+            print(l)
+        return 1
+    if rc in (2, 3):
+        print("  the check did not decide on the current tree (exit %d):" % rc)
+        for l in lines[-5:]:
+            print("    " + l)
+        return rc
+    print("  the obligation is discharged on the current tree")
+    return 0
+
+
 def main():
+    if "--replay" in sys.argv:
+        i = sys.argv.index("--replay")
+        path = sys.argv[i + 1] if i + 1 < len(sys.argv) else ""
+        sys.argv = [sys.argv[0]]
+        return do_replay(path)
     args = [a for a in sys.argv[1:] if not a.startswith("--")]
     if not args:
         print(__doc__)
